@@ -479,6 +479,9 @@ class Exec(Engine):
         # concrete iteration domain -> plain conjunction / disjunction
         dom = None
         if self.pure:
+            split = self.snoc_split(kind, gen, comp, st, node)
+            if split is not None:
+                return split
             dom = self.symbolic_domain(comp, st)
         if dom is None:
             itv = self.ev1(it, st) if self.pure else None
@@ -528,6 +531,49 @@ class Exec(Engine):
         if kind == 'all':
             return [(VBool(smt.ForAll([var], Implies(g, body), patterns=pats)), st)]
         return [(VBool(smt.Exists([var], And(g, body), patterns=pats)), st)]
+
+    def snoc_split(self, kind, gen, comp, st, node, depth=0):
+        """all/any(P(x) for x in xs) where xs is known to be ys ++ [y] (a list that was appended to):
+        (all/any over ys) combined with P(y) -- the instance the solvers' sequence theories do not find by themselves."""
+        if not isinstance(comp.target, ast.Name) or comp.ifs:
+            return None
+        try:
+            v = self.ev1(comp.iter, st)
+            seq, elem = self.seq_of(v, st)
+        except Undecided:
+            return None
+        snoc = self.ctx.__dict__.get('snoc', {})
+        parts = []
+        cur = seq
+        while cur.s in snoc and len(parts) < 4:
+            cur, last = snoc[cur.s]
+            parts.append(last)
+        if not parts:
+            return None
+        name = comp.target.id
+        ts = []
+        # the remaining prefix: an ordinary quantifier over its indices
+        var = smt.bound(self.ctx, 'ix', INT)
+        s = st.copy()
+        fid = s.new_frame(s.cur)
+        s.cur = fid
+        s.bind(name, wrap(smt.At(cur, var), elem))
+        self.pat_stack.append((var, []))
+        try:
+            body = self.truthy(self.ev1(gen.elt, s), s)
+        finally:
+            _, cands = self.pat_stack.pop()
+        guard = And(Le(IntV(0), var), Lt(var, Len(cur)))
+        pats = [[smt.At(cur, var)]]
+        ts.append(smt.ForAll([var], Implies(guard, body), patterns=pats) if kind == 'all'
+                  else smt.Exists([var], And(guard, body), patterns=pats))
+        for last in parts:
+            s = st.copy()
+            fid = s.new_frame(s.cur)
+            s.cur = fid
+            s.bind(name, wrap(last, elem))
+            ts.append(self.truthy(self.ev1(gen.elt, s), s))
+        return [(VBool(And(*ts) if kind == 'all' else Or(*ts)), st)]
 
     def symbolic_domain(self, comp, st):
         """(bound var, guard, binder) for `for x in range(a, b)` / `for x in seq` in pure mode."""
@@ -673,6 +719,10 @@ class Exec(Engine):
                 except Exception as ex:
                     return [(Raised(VExc(type(ex))), st)]
                 return [(self.lift(r, st), st)]
+            if isinstance(obj, types.MethodType) and isinstance(obj.__self__, type) \
+                    and getattr(obj, '__module__', '').startswith('xdoctest'):
+                # a classmethod reached through its class: the class is the first argument
+                return self.call_repo_function(obj.__func__, [VPy(obj.__self__)] + args, kwargs, st, node)
             if isinstance(obj, (types.FunctionType, types.MethodType)) and getattr(obj, '__module__', '').startswith('xdoctest'):
                 return self.call_repo_function(obj, args, kwargs, st, node)
             if isinstance(obj, type) and issubclass(obj, tuple) and hasattr(obj, '_fields') and obj.__name__ in C.RECORDS:
@@ -1480,6 +1530,12 @@ class Exec(Engine):
                 return self.val_const(None)
             if isinstance(v, VPy):
                 return self.val_const(v.obj)
+            if isinstance(v, VRecList):
+                # a list object kept as an opaque value (distinct from None; its content is not tracked through the container)
+                self.ctx.sort('Val')
+                t = self.ctx.fresh('stored_list', 'Val')
+                st.assume(Ne(t, self.val_const(None)))
+                return t
         if getattr(v, 'ty', None) == ty:
             return v.t
         raise Undecided('cannot store %r as %r' % (v, ty))
@@ -1793,6 +1849,33 @@ class Exec(Engine):
                             out.append((('sym', n, (lambda i, s_, g1=d1[2], g2=d2[2]: VTuple([g1(i, s_), g2(i, s_)]))), s2))
                         else:
                             raise Undecided('zip of concrete and symbolic', it_node)
+                return out
+        if isinstance(it_node, ast.BinOp) and isinstance(it_node.op, ast.Add) and isinstance(it_node.right, ast.List) \
+                and len(it_node.right.elts) == 1 and isinstance(it_node.right.elts[0], ast.Constant) \
+                and it_node.right.elts[0].value is None:
+            # xs + [None]: the elements of xs followed by None (an optional element: None exactly at the last position)
+            from .symexec import VOptSym
+            for dom, s in self.iter_domain(it_node.left, st):
+                if dom[0] == 'concrete':
+                    out.append((('concrete', list(dom[1]) + [NONE]), s))
+                elif dom[0] == 'sym':
+                    n0, g0 = dom[1], dom[2]
+                    out.append((('sym', Add(n0, IntV(1)),
+                                 (lambda i, s_, n0=n0, g0=g0: VOptSym(Ge(i, n0), g0(i, s_)))), s))
+                else:
+                    raise Undecided('xs + [None] over %r' % (dom[0],), it_node)
+            return out
+        if isinstance(it_node, ast.Subscript) and isinstance(it_node.slice, ast.Slice) and it_node.slice.upper is None \
+                and it_node.slice.step is None and isinstance(it_node.slice.lower, ast.Constant) \
+                and isinstance(it_node.slice.lower.value, int) and it_node.slice.lower.value >= 0:
+            # xs[k:]: element i is xs[i + k] (plain index terms instead of nth-of-extract)
+            k0 = it_node.slice.lower.value
+            doms = self.iter_domain(it_node.value, st)
+            if all(d[0] == 'sym' for d, _ in doms):
+                for dom, s in doms:
+                    n0, g0 = dom[1], dom[2]
+                    out.append((('sym', smt.Max(Sub(n0, IntV(k0)), IntV(0)),
+                                 (lambda i, s_, g0=g0, k0=k0: g0(Add(i, IntV(k0)), s_))), s))
                 return out
         for v, s in self.ev(it_node, st):
             if isinstance(v, Raised):
